@@ -527,6 +527,7 @@ class Checker:
         self.pending = []     # (kind, what, case, actual, expected) to be reproduced before reporting
         self.open_ids = {k["id"] for k in rep.known}
         self.nsample = {}
+        self.drift = []
 
     def bump(self, k, n=1):
         self.c[k] = self.c.get(k, 0) + n
@@ -569,40 +570,39 @@ class Checker:
         good = True
         if rec["ok"]:
             rt = rec["rt"]
+            real_rt = bool(rt.get("ok") and rt.get("equal"))
+            rtinfo = {"printed": rec["printed"], "rt": {k: rt[k] for k in rt if k != "ast2"}}
+            how = ("is rejected: " + rt.get("msg", "")) if not rt.get("ok") else "parses to a different AST"
             if not v["ast"]:
                 good = False
                 self.bump("mismatch_ast")
                 self.disagree("ast", "%r: the AST of the real parser is not the tree the grammar specification gives" % src, case, {"printed": rec["printed"]})
-            elif not v["pr"]:
-                good = False
-                self.bump("mismatch_print")
-                self.disagree("print", "%r: String() = %r is not what the printer specification gives" % (src, src_text(rec["printed"])), case, {"printed": rec["printed"]})
-            real_rt = bool(rt.get("ok") and rt.get("equal"))
-            if good and real_rt != v["srt"]:
-                good = False
-                if real_rt:
-                    raise vc.ToolError("SPEC-DRIFT: specification predicts a round-trip failure the real code does not have: %r" % src)
-                self.bump("mismatch_roundtrip")
-                self.disagree("roundtrip", "%r: String() = %r %s" % (src, src_text(rec["printed"]), "is rejected: " + rt.get("msg", "") if not rt.get("ok") else "parses to a different AST"),
-                              case, {"printed": rec["printed"], "rt": {k: rt[k] for k in rt if k != "ast2"}})
-            elif good and not real_rt:
-                # the real code fails the law exactly as the specification of the code predicts: a genuine defect;
-                # attributed to a finding iff the law holds with that deviation of query.go repaired
+            elif not real_rt:
                 good = False
                 fix = v["fix"]
-                devs = [d for d in ("emptyImport", "dotBracket") if fix.get(d)][:1] or ["emptyImport", "dotBracket"]
-                if fix["all"]:
-                    rep.count("traces_validated_against_impl")      # TLC's model of the code agrees with the code on this record
+                if v["pr"] and not v["srt"] and fix["all"]:
+                    # the real code fails the law exactly as the specification OF THE CODE predicts, and the law holds with the
+                    # deviation(s) of query.go repaired: a genuine defect attributed to the finding(s) of those deviations
+                    rep.count("traces_validated_against_impl")
+                    devs = [d for d in ("emptyImport", "dotBracket") if fix.get(d)][:1] or ["emptyImport", "dotBracket"]
                     for d in devs:
-                        self.finding(d, "%r prints as %r, which %s" % (src, src_text(rec["printed"]), "is rejected" if not rt.get("ok") else "parses to a different AST"))
+                        self.finding(d, "%r prints as %r, which %s" % (src, src_text(rec["printed"]), how))
                 else:
                     self.bump("mismatch_roundtrip")
-                    self.disagree("roundtrip", "%r: String() = %r does not parse back to the same AST" % (src, src_text(rec["printed"])), case,
-                                  {"printed": rec["printed"], "rt": {k: rt[k] for k in rt if k != "ast2"}})
-            elif good and not rt.get("idem", True):
+                    self.disagree("roundtrip", "%r: String() = %r %s" % (src, src_text(rec["printed"]), how), case, rtinfo)
+            elif not v["pr"]:
+                # the text differs from the printer specification but parses back to the same AST: the property holds
+                # on this record, the specification is no longer a model of the printer (reported as drift, exit 2)
+                good = False
+                self.bump("printer_text_differs_from_spec")
+                if len(self.drift) < 5:
+                    self.drift.append("%r: String() = %r is not what the printer specification gives (it still round-trips)" % (src, src_text(rec["printed"])))
+            elif not v["srt"]:
+                raise vc.ToolError("SPEC-DRIFT: the specification predicts a round-trip failure the real code does not have: %r" % src)
+            elif not rt.get("idem", True):
                 good = False
                 self.bump("mismatch_idempotence")
-                self.disagree("roundtrip", "%r: printing the re-parsed query gives a different text" % src, case, {"printed": rec["printed"]})
+                self.disagree("roundtrip", "%r: printing the re-parsed query gives a different text" % src, case, rtinfo)
         else:
             if v["ek"] != rec["err"]["kind"] or v["eo"] != rec["err"].get("offset", -2):
                 self.bump("error_position_differs")     # informational (C17 owns positions)
@@ -780,17 +780,17 @@ def run(tier, seed, replay):
         os.remove(out2)
 
         profiles = [a["profile"] for a in alphabets]
-        pieces = {"strings", "comments"}        # alphabets of token pieces (C09Universe!PieceProfiles)
+        pieces = {"strings", "comments", "lexemes"}        # alphabets of token pieces (C09Universe!PieceProfiles)
         tokprofiles = [p for p in profiles if p not in pieces]
         if quick:
             mclens = {p: 3 for p in tokprofiles}
             mclens[tokprofiles[(seed - 1) % len(tokprofiles)]] = 4
-            mclens.update({"strings": 4, "comments": 5})
+            mclens.update({"strings": 4, "comments": 5, "lexemes": 4})
         else:
             mclens = {p: 4 for p in tokprofiles}
             mclens["terms"] = 5
             mclens[tokprofiles[1 + (seed - 1) % (len(tokprofiles) - 1)]] = 5
-            mclens.update({"strings": 5, "comments": 6})
+            mclens.update({"strings": 5, "comments": 6, "lexemes": 5})
         for p in profiles:
             mc.append(("GrammarMC %s MaxLen=%d" % (p, mclens[p]), pool.submit(
                 model_check, work, "GrammarMC.tla",
@@ -822,7 +822,7 @@ def run(tier, seed, replay):
                     if n > 1 or piece:
                         cases.append({"srcB": list(b"".join(ts)), "tag": "tokseq"})
         rep.cov["token_sequences"] = ("every sequence of <= %d tokens over %d token alphabets (16-18 tokens), blank-separated and glued; every glued sequence of "
-                                      "<= %d pieces over the 2 alphabets of string/comment pieces: %d texts" % (seqlen, len(tokprofiles), piecelen, len(cases)))
+                                      "<= %d pieces over the 3 alphabets of string / comment / lexeme pieces: %d texts" % (seqlen, len(tokprofiles), piecelen, len(cases)))
         ck.run_family("tokseq", cases)
 
         # ---- 3. every number-ish string (Parse and tonumber)
@@ -881,6 +881,12 @@ def run(tier, seed, replay):
                            "seeded random programs of the full surface grammar + byte mutants, corpus (cli/test.yaml queries, builtin.jq whole and per "
                            "definition, module files) + mutants, re-spacings; a text is validated when TLC's tokens/tree/print/round-trip/tonumber verdict "
                            "computed from its bytes equals what the real Parse/String()/tonumber did; non-trivial = accepted text, distinct by bytes")
+        if ck.drift:
+            rep.notes.append("SPEC-DRIFT: " + "; ".join(ck.drift))
+            rc = rep.finish()
+            for d in ck.drift:
+                print("SPEC-DRIFT: property=%s %s" % (PROP, d), flush=True)
+            return rc if rc == 1 else 2
         return rep.finish()
     finally:
         work.cleanup()
